@@ -245,7 +245,7 @@ class FMaskNe:
         raise A.OutsideSubset("all() of a fillings comparison")
 
 
-def make_scf(loader, Nk=1, Nspin=1, symmetric_h=True, pot="gth"):
+def make_scf(loader, Nk=1, Nspin=1, symmetric_h=True, pot="gth", phi_generic=False):
     at = make_atoms(loader, Nk=Nk, Nspin=Nspin)
     at.Natoms = 1
     at.atom = ["X"]
@@ -261,6 +261,12 @@ def make_scf(loader, Nk=1, Nspin=1, symmetric_h=True, pot="gth"):
     at.occ.fsym = f
     at.occ.f = [[FVec(True) for s in range(Nspin)] for ik in range(Nk)]
     vxc = [vec_atom(f"vxc{s}", DIM["Ns"], real=True) for s in range(Nspin)]
-    phir = vec_atom("phi_r", DIM["Ns"], real=True)
-    pots = dict(dn_spin=None, phi=at.J(phir), vxc=vxc, vsigma=None, vtau=None)
+    if phi_generic:
+        # the Hartree field as an ARBITRARY complex reciprocal-space vector: on even samplings of non-orthogonal cells its
+        # real-space image is not real (|G|^2 is not inversion symmetric on the Nyquist planes); H would have to take the real part
+        phi = vec_atom("phi_G", DIM["Ns"], real=False)
+    else:
+        # pre-condition of the plain contracts: the real-space image of the Hartree field is real
+        phi = at.J(vec_atom("phi_r", DIM["Ns"], real=True))
+    pots = dict(dn_spin=None, phi=phi, vxc=vxc, vsigma=None, vtau=None)
     return scf, at, pots
